@@ -61,7 +61,8 @@ CLAIMS = {
         tech="Lean 4 proof + differential correspondence"),
     'C18': dict(
         text="Rewrite relation Rw (swap, re-association, mirroring, contains/in_, congruence, all compositions): rw_sdenote, "
-             "c18_rows_invariant, c18_chain_and/or (chained_logic), c18_selection, c18_domain_perm. Correspondence: metamorphic, "
+             "c18_rows_invariant, c18_chain_and/or (chained_logic), c18_selection, c18_domain_perm; c18_flatten_in_disjunction_witness "
+             "(conditions with a flatten are excluded for a reason: the excluded point is real, by decide). Correspondence: metamorphic, "
              "random rewrite sequences on the real library incl. declaration order, caching on and off.",
         note=BASE_NOTE + "Declaration order is invisible to the L1 model; with caching on it is exactly what flips known finding "
              "C05-F1, attributed only when a cache was not prefix-uniform.",
